@@ -2,6 +2,7 @@ import DarkluaModel.Shared.VisitorSound.HeapU.USteps
 import DarkluaModel.Shared.VisitorSound.HeapU.USelf
 import DarkluaModel.Shared.VisitorSound.HeapU.UOracle
 import DarkluaModel.Shared.VisitorSoundHeap
+import DarkluaModel.Shared.VisitorSoundHeapV
 /-!
 # Stage 4, unified (`Sem.HeapU`): renumbering of cells, tables and closures + context + private heap invariants
 
@@ -12,6 +13,11 @@ three partial injections with frontiers, `VR` congruence closure, links, lifting
   `SoundE Q cx D`, `VR cx D`, `VkE cx`, `HooksU cx P`. Lemma APPLICATIONS look as in `HeapV` (cx is implicit).
   - `cx.upto`: results related up to budget exhaustion of the original (`RRel … .timeout _`, `LeE cx.upto` steps
     `VR.stepE`, `VkE.ofLe`); conclusions `… = .timeout ∨ … = …` (`runProgram_vr_upto`, `visit_u_upto`).
+  - `cx.uptoR`: the mirror image — the REWRITTEN program may exhaust its budget where the original does not
+    (rewrites that spend more budget levels: boxed reads, `tostring` instead of interpolation); a leaf returns
+    `RRel.timeout_right`; conclusions `new = .timeout ∨ new = old` (`runProgram_vr_uptoR`, `visit_u_uptoR`,
+    `runDefault_u_uptoR`, `runScoped_u_uptoR`). `upto` and `uptoR` cannot be chained together (not transitive):
+    each family of theorems asks the other flag to be off.
   - `cx.CF N ρ k call`: an assumption on the call handler, the oracle and the level, available in every leaf as
     `hp.cf` (`POK`), asked of every level `callClosure ρ n` by the final theorems (default: trivial). This is where
     a CLASS OF NUMBER SYSTEMS lives (`CF := fun N _ _ _ => NOK N`), and where a leaf gets to unfold the call of a
@@ -28,9 +34,13 @@ three partial injections with frontiers, `VR` congruence closure, links, lifting
   cells with pinned content: `SRel.allocTableRightPinned`, `SRel.pinnedTR` (content, below the frontier, related to
   nothing — in every later `SRel`, extensions keep pins), `SRel.setPinnedTR` (the owner rewrites it: `rawSet`,
   `setMany` are `setTable`), `le_repinT` (from the injection at the ENTRY of the owner's step every re-pinned
-  injection is an ordinary extension); likewise `…CR` for cells. Closure pins as in `HeapV`.
-* NOT yet: watched globals / watched locals with known bindings (the `.wat` plumbing of stage 3), left-side content
-  pins, an "original raises" flavour of `upto`.
+  injection is an ordinary extension); likewise `…CR` for cells, and `…TL` / `…CL` on the LEFT
+  (`SRel.allocTableLeftPinned`, `pinnedTL`, `setPinnedTL`, `le_repinTL`, …). Closure pins as in `HeapV`.
+* plumbing for consumers that run one-sided preludes themselves: `SRel.rebase` (change context and closure-body
+  relation while no closures are related — establish `cx.I` AFTER the preludes), `wrapCtl` / `observe_of_soundB`
+  (outcome of two `SoundB`-related blocks from GIVEN environments and states).
+* NOT yet: watched globals / watched locals with known bindings (the `.wat` plumbing of stage 3, `IdGlobal`), an
+  "original raises" flavour of `upto`.
 -/
 namespace DarkluaModel
 open Sem Sem.HeapU
@@ -87,44 +97,68 @@ theorem Sem.HeapU.noRefB_nil (b : Block) : NoRefB [] b := fun _ h => by cases h
 run from a self-related initial state — or (only when `cx.upto`) the original exhausts its budget. -/
 theorem Sem.HeapU.chain_runChunk' {b b' : Block} (h : Chain (VkB cx) b b') {N : NumOps} (ρ : ExtOracle N)
     (hρ : OracleFlat ρ) (hCF : ∀ n, cx.CF N ρ n (callClosure ρ n)) (n : Nat) {β : Inj N} {σ0 : State N}
-    (hs : SRel (VQ cx) cx β σ0 σ0) :
+    (hs : SRel (VQ cx) cx β σ0 σ0) (hur : cx.uptoR = false := by rfl) :
     (cx.upto = true ∧ observe (runChunk ρ n b σ0) = .timeout) ∨
       observe (runChunk ρ n b' σ0) = observe (runChunk ρ n b σ0) := by
   induction h with
   | refl => exact .inr rfl
   | @cons a m c hl _ ih =>
     obtain ⟨⟨D', hvr⟩, _⟩ := hl [] wok_nil (noRefB_nil a)
-    rcases runChunk_vr' ρ hρ hCF n hvr hs with h1 | h1
+    rcases runChunk_vr' ρ hρ hCF n hvr hs hur with h1 | h1
     · exact .inl h1
     · rcases ih with h2 | h2
       · exact .inl ⟨h2.1, by rw [← h1]; exact h2.2⟩
       · exact .inr (h2.trans h1)
 
+/-- the mirror image (contexts with `uptoR`, without `upto`): same outcome unless the REWRITTEN program exhausts
+its budget -/
+theorem Sem.HeapU.chain_runChunkR {b b' : Block} (h : Chain (VkB cx) b b') {N : NumOps} (ρ : ExtOracle N)
+    (hρ : OracleFlat ρ) (hCF : ∀ n, cx.CF N ρ n (callClosure ρ n)) (n : Nat) {β : Inj N} {σ0 : State N}
+    (hs : SRel (VQ cx) cx β σ0 σ0) (hu : cx.upto = false := by rfl) :
+    observe (runChunk ρ n b' σ0) = .timeout ∨ observe (runChunk ρ n b' σ0) = observe (runChunk ρ n b σ0) := by
+  induction h with
+  | refl => exact .inr rfl
+  | @cons a m c hl _ ih =>
+    obtain ⟨⟨D', hvr⟩, _⟩ := hl [] wok_nil (noRefB_nil a)
+    rcases ih with h2 | h2
+    · exact .inl h2
+    · rcases runChunk_vrR ρ hρ hCF n hvr hs hu with h1 | h1
+      · exact .inl (h2.trans h1)
+      · exact .inr (h2.trans h1)
+
 theorem Sem.HeapU.chain_runProgram {b b' : Block} (h : Chain (VkB cx) b b') {N : NumOps} (ρ : ExtOracle N)
     (hρ : OracleFlat ρ) (n : Nat) (externs : List String)
     (hI : cx.I N initRel (initState externs : State N) (initState externs) := by trivial)
-    (hu : cx.upto = false := by rfl) (hCF : ∀ n, cx.CF N ρ n (callClosure ρ n) := by intros; trivial) :
+    (hu : cx.upto = false := by rfl) (hCF : ∀ n, cx.CF N ρ n (callClosure ρ n) := by intros; trivial)
+    (hur : cx.uptoR = false := by rfl) :
     runProgram ρ n externs b' = runProgram ρ n externs b := by
-  rcases chain_runChunk' h ρ hρ hCF n (SRel.init (VQ cx) externs hI) with ⟨h1, _⟩ | h2
+  rcases chain_runChunk' h ρ hρ hCF n (SRel.init (VQ cx) externs hI) hur with ⟨h1, _⟩ | h2
   · rw [hu] at h1; cases h1
   · exact h2
 
 theorem Sem.HeapU.chain_runProgram_upto {b b' : Block} (h : Chain (VkB cx) b b') {N : NumOps} (ρ : ExtOracle N)
     (hρ : OracleFlat ρ) (n : Nat) (externs : List String)
     (hI : cx.I N initRel (initState externs : State N) (initState externs) := by trivial)
-    (hCF : ∀ n, cx.CF N ρ n (callClosure ρ n) := by intros; trivial) :
+    (hCF : ∀ n, cx.CF N ρ n (callClosure ρ n) := by intros; trivial) (hur : cx.uptoR = false := by rfl) :
     runProgram ρ n externs b = .timeout ∨ runProgram ρ n externs b' = runProgram ρ n externs b := by
-  rcases chain_runChunk' h ρ hρ hCF n (SRel.init (VQ cx) externs hI) with ⟨_, h1⟩ | h2
+  rcases chain_runChunk' h ρ hρ hCF n (SRel.init (VQ cx) externs hI) hur with ⟨_, h1⟩ | h2
   · exact .inl h1
   · exact .inr h2
+
+theorem Sem.HeapU.chain_runProgram_uptoR {b b' : Block} (h : Chain (VkB cx) b b') {N : NumOps} (ρ : ExtOracle N)
+    (hρ : OracleFlat ρ) (n : Nat) (externs : List String)
+    (hI : cx.I N initRel (initState externs : State N) (initState externs) := by trivial)
+    (hCF : ∀ n, cx.CF N ρ n (callClosure ρ n) := by intros; trivial) (hu : cx.upto = false := by rfl) :
+    runProgram ρ n externs b' = .timeout ∨ runProgram ρ n externs b' = runProgram ρ n externs b :=
+  chain_runChunkR h ρ hρ hCF n (SRel.init (VQ cx) externs hI) hu
 
 /-- from any well-formed initial state in which the consumer's invariant holds -/
 theorem Sem.HeapU.chain_runChunk_wf {b b' : Block} (h : Chain (VkB cx) b b') {N : NumOps} (ρ : ExtOracle N)
     (hρ : OracleFlat ρ) (hCF : ∀ n, cx.CF N ρ n (callClosure ρ n)) (n : Nat) {σ0 : State N} (hwf : State.WF σ0)
-    (hI : cx.I N (idRel σ0) σ0 σ0) :
+    (hI : cx.I N (idRel σ0) σ0 σ0) (hur : cx.uptoR = false := by rfl) :
     (cx.upto = true ∧ observe (runChunk ρ n b σ0) = .timeout) ∨
       observe (runChunk ρ n b' σ0) = observe (runChunk ρ n b σ0) :=
-  chain_runChunk' h ρ hρ hCF n (SRel.ofWF VQ_refl hwf hI)
+  chain_runChunk' h ρ hρ hCF n (SRel.ofWF VQ_refl hwf hI) hur
 
 theorem Visitor.visit_chain_u (H : HooksU cx P) (sc : Bool) (fuel : Nat) (pushes : Bool) (b : Block) (s : σ) :
     Chain (VkB cx) b (Visitor.visitBlock P sc fuel pushes b s).1 :=
@@ -134,48 +168,76 @@ theorem Visitor.visit_chain_u (H : HooksU cx P) (sc : Bool) (fuel : Nat) (pushes
 theorem Visitor.visit_u (H : HooksU cx P) (sc : Bool) (fuel : Nat) (pushes : Bool) (b : Block) (s : σ)
     {N : NumOps} (ρ : ExtOracle N) (hρ : OracleFlat ρ) (n : Nat) (externs : List String)
     (hI : cx.I N initRel (initState externs : State N) (initState externs) := by trivial)
-    (hu : cx.upto = false := by rfl) (hCF : ∀ n, cx.CF N ρ n (callClosure ρ n) := by intros; trivial) :
+    (hu : cx.upto = false := by rfl) (hCF : ∀ n, cx.CF N ρ n (callClosure ρ n) := by intros; trivial)
+    (hur : cx.uptoR = false := by rfl) :
     runProgram ρ n externs (Visitor.visitBlock P sc fuel pushes b s).1 = runProgram ρ n externs b :=
-  chain_runProgram (Visitor.visit_chain_u H sc fuel pushes b s) ρ hρ n externs hI hu hCF
+  chain_runProgram (Visitor.visit_chain_u H sc fuel pushes b s) ρ hρ n externs hI hu hCF hur
 
 /-- **lifting theorem (up to budget exhaustion of the original)** -/
 theorem Visitor.visit_u_upto (H : HooksU cx P) (sc : Bool) (fuel : Nat) (pushes : Bool) (b : Block) (s : σ)
     {N : NumOps} (ρ : ExtOracle N) (hρ : OracleFlat ρ) (n : Nat) (externs : List String)
     (hI : cx.I N initRel (initState externs : State N) (initState externs) := by trivial)
-    (hCF : ∀ n, cx.CF N ρ n (callClosure ρ n) := by intros; trivial) :
+    (hCF : ∀ n, cx.CF N ρ n (callClosure ρ n) := by intros; trivial) (hur : cx.uptoR = false := by rfl) :
     runProgram ρ n externs b = .timeout ∨
       runProgram ρ n externs (Visitor.visitBlock P sc fuel pushes b s).1 = runProgram ρ n externs b :=
-  chain_runProgram_upto (Visitor.visit_chain_u H sc fuel pushes b s) ρ hρ n externs hI hCF
+  chain_runProgram_upto (Visitor.visit_chain_u H sc fuel pushes b s) ρ hρ n externs hI hCF hur
+
+/-- **lifting theorem (up to budget exhaustion of the REWRITTEN program, `cx.uptoR`)** -/
+theorem Visitor.visit_u_uptoR (H : HooksU cx P) (sc : Bool) (fuel : Nat) (pushes : Bool) (b : Block) (s : σ)
+    {N : NumOps} (ρ : ExtOracle N) (hρ : OracleFlat ρ) (n : Nat) (externs : List String)
+    (hI : cx.I N initRel (initState externs : State N) (initState externs) := by trivial)
+    (hCF : ∀ n, cx.CF N ρ n (callClosure ρ n) := by intros; trivial) (hu : cx.upto = false := by rfl) :
+    runProgram ρ n externs (Visitor.visitBlock P sc fuel pushes b s).1 = .timeout ∨
+      runProgram ρ n externs (Visitor.visitBlock P sc fuel pushes b s).1 = runProgram ρ n externs b :=
+  chain_runProgram_uptoR (Visitor.visit_chain_u H sc fuel pushes b s) ρ hρ n externs hI hCF hu
+
+theorem Visitor.runDefault_u_uptoR (H : HooksU cx P) (b : Block) (s : σ) {N : NumOps} (ρ : ExtOracle N)
+    (hρ : OracleFlat ρ) (n : Nat) (externs : List String)
+    (hI : cx.I N initRel (initState externs : State N) (initState externs) := by trivial)
+    (hCF : ∀ n, cx.CF N ρ n (callClosure ρ n) := by intros; trivial) (hu : cx.upto = false := by rfl) :
+    runProgram ρ n externs (Visitor.runDefault P b s).1 = .timeout ∨
+      runProgram ρ n externs (Visitor.runDefault P b s).1 = runProgram ρ n externs b :=
+  Visitor.visit_u_uptoR H false _ true b s ρ hρ n externs hI hCF hu
+
+theorem Visitor.runScoped_u_uptoR (H : HooksU cx P) (b : Block) (s : σ) {N : NumOps} (ρ : ExtOracle N)
+    (hρ : OracleFlat ρ) (n : Nat) (externs : List String)
+    (hI : cx.I N initRel (initState externs : State N) (initState externs) := by trivial)
+    (hCF : ∀ n, cx.CF N ρ n (callClosure ρ n) := by intros; trivial) (hu : cx.upto = false := by rfl) :
+    runProgram ρ n externs (Visitor.runScoped P b s).1 = .timeout ∨
+      runProgram ρ n externs (Visitor.runScoped P b s).1 = runProgram ρ n externs b :=
+  Visitor.visit_u_uptoR H true _ true b s ρ hρ n externs hI hCF hu
 
 theorem Visitor.runDefault_u (H : HooksU cx P) (b : Block) (s : σ) {N : NumOps} (ρ : ExtOracle N) (hρ : OracleFlat ρ)
     (n : Nat) (externs : List String)
     (hI : cx.I N initRel (initState externs : State N) (initState externs) := by trivial)
-    (hu : cx.upto = false := by rfl) (hCF : ∀ n, cx.CF N ρ n (callClosure ρ n) := by intros; trivial) :
+    (hu : cx.upto = false := by rfl) (hCF : ∀ n, cx.CF N ρ n (callClosure ρ n) := by intros; trivial)
+    (hur : cx.uptoR = false := by rfl) :
     runProgram ρ n externs (Visitor.runDefault P b s).1 = runProgram ρ n externs b :=
-  Visitor.visit_u H false _ true b s ρ hρ n externs hI hu hCF
+  Visitor.visit_u H false _ true b s ρ hρ n externs hI hu hCF hur
 
 theorem Visitor.runScoped_u (H : HooksU cx P) (b : Block) (s : σ) {N : NumOps} (ρ : ExtOracle N) (hρ : OracleFlat ρ)
     (n : Nat) (externs : List String)
     (hI : cx.I N initRel (initState externs : State N) (initState externs) := by trivial)
-    (hu : cx.upto = false := by rfl) (hCF : ∀ n, cx.CF N ρ n (callClosure ρ n) := by intros; trivial) :
+    (hu : cx.upto = false := by rfl) (hCF : ∀ n, cx.CF N ρ n (callClosure ρ n) := by intros; trivial)
+    (hur : cx.uptoR = false := by rfl) :
     runProgram ρ n externs (Visitor.runScoped P b s).1 = runProgram ρ n externs b :=
-  Visitor.visit_u H true _ true b s ρ hρ n externs hI hu hCF
+  Visitor.visit_u H true _ true b s ρ hρ n externs hI hu hCF hur
 
 theorem Visitor.runDefault_u_upto (H : HooksU cx P) (b : Block) (s : σ) {N : NumOps} (ρ : ExtOracle N)
     (hρ : OracleFlat ρ) (n : Nat) (externs : List String)
     (hI : cx.I N initRel (initState externs : State N) (initState externs) := by trivial)
-    (hCF : ∀ n, cx.CF N ρ n (callClosure ρ n) := by intros; trivial) :
+    (hCF : ∀ n, cx.CF N ρ n (callClosure ρ n) := by intros; trivial) (hur : cx.uptoR = false := by rfl) :
     runProgram ρ n externs b = .timeout ∨
       runProgram ρ n externs (Visitor.runDefault P b s).1 = runProgram ρ n externs b :=
-  Visitor.visit_u_upto H false _ true b s ρ hρ n externs hI hCF
+  Visitor.visit_u_upto H false _ true b s ρ hρ n externs hI hCF hur
 
 theorem Visitor.runScoped_u_upto (H : HooksU cx P) (b : Block) (s : σ) {N : NumOps} (ρ : ExtOracle N)
     (hρ : OracleFlat ρ) (n : Nat) (externs : List String)
     (hI : cx.I N initRel (initState externs : State N) (initState externs) := by trivial)
-    (hCF : ∀ n, cx.CF N ρ n (callClosure ρ n) := by intros; trivial) :
+    (hCF : ∀ n, cx.CF N ρ n (callClosure ρ n) := by intros; trivial) (hur : cx.uptoR = false := by rfl) :
     runProgram ρ n externs b = .timeout ∨
       runProgram ρ n externs (Visitor.runScoped P b s).1 = runProgram ρ n externs b :=
-  Visitor.visit_u_upto H true _ true b s ρ hρ n externs hI hCF
+  Visitor.visit_u_upto H true _ true b s ρ hρ n externs hI hCF hur
 
 /-! ### exact hooks are unified hooks when they introduce no identifier references -/
 
@@ -203,5 +265,56 @@ theorem HooksExact.toU (H : HooksExact P) (F : HooksNoRef P) : HooksU cx P where
   insertLocalName := H.insertLocalName
   insertLocalVal := fun n v s => .single (.ofEq (H.insertLocalVal n v s) (fun D _ => F.insertLocalVal n v s D))
   insertLocalFn := H.insertLocalFn
+
+/-! ## A consumer's heap invariant: shape of the stability proof
+
+"the right table `b` is private and has no metatable": the three facts the consumer needs come from `Inj.ext`
+(frontier grows, new table pairs are fresh) and `Frame` (private tables untouched). -/
+namespace Demo.PrivateTable
+
+def icx (b : Nat) : HeapU.Cx where
+  I := fun _ β _ σ' => b < β.tR ∧ (∀ a, ¬ β.t a b) ∧ ∃ t, σ'.tables[b]? = some t ∧ t.mt = none
+  stable := fun _ β β' σ σ' s s' he hf hI => by
+    obtain ⟨h1, h2, t, h3, h4⟩ := hI
+    refine ⟨Nat.lt_of_lt_of_le h1 he.front.2.2.2.1, fun a ha => ?_, t, hf.tR b t h1 h2 h3, h4⟩
+    rcases he.freshT a b ha with h5 | h5
+    · exact h2 a h5
+    · omega
+
+/-- in every state pair related under this context the private table is still there, whatever code has run -/
+example {b : Nat} {Q : HeapU.QRel} {N : NumOps} {β : HeapU.Inj N} {σ σ' : State N}
+    (h : HeapU.SRel Q (icx b) β σ σ') : ∃ t, σ'.tables[b]? = some t ∧ t.mt = none := h.inv.2.2
+
+end Demo.PrivateTable
+
+/-! ## Worked instance: the `Demo.DropUnusedAlloc` pass again, through the unified development -/
+namespace Demo.DropUnusedAllocU
+open Demo.DropUnusedAlloc
+
+theorem hooksU : HooksU HeapU.Cx.none processor where
+  scopeB := fun b s => by
+    cases b with
+    | mk ss last =>
+      simp only [processor, scopeHook]
+      rcases dropIn_spec (fun _ => false) last ss with h | ⟨pre, k, ns, vs, rest, h1, h2, h3, h4⟩
+      · rw [h]; exact .refl _
+      · rw [h2, h1]
+        exact .single (HeapU.VkB.dropLocal (HeapU.allocPureAll_sound vs h3) fun n hn => (h4 n hn).1)
+  scopeR := fun b c s => by
+    cases b with
+    | mk ss last =>
+      simp only [processor, scopeHook, Option.getD]
+      rcases dropIn_spec (fun n => c.refs (.ref n)) last ss with h | ⟨pre, k, ns, vs, rest, h1, h2, h3, h4⟩
+      · rw [h]; exact .refl _
+      · rw [h2, h1]
+        exact .single (HeapU.VkRep.dropLocal (HeapU.allocPureAll_sound vs h3) (fun n hn => (h4 n hn).1)
+          (fun n hn => (h4 n hn).2))
+
+theorem run_refines (b : Block) (n : Nat) (externs : List String) :
+    runProgram Shared.driverOracle n externs (Visitor.runScoped processor b ()).1 =
+      runProgram Shared.driverOracle n externs b :=
+  Visitor.runScoped_u hooksU b () _ HeapU.driverOracle_flat n externs
+
+end Demo.DropUnusedAllocU
 
 end DarkluaModel
